@@ -4,8 +4,11 @@ import json, glob, os, sys
 ROOT = os.path.dirname(os.path.dirname(os.path.abspath(__file__)))
 head = json.load(open(os.path.join(ROOT, "tools", "manifest_head.json")))
 ids = [json.loads(l)["id"] for l in open(os.path.join(ROOT, "properties.jsonl")) if l.strip()]
+hold = set(open(os.path.join(ROOT, "tools", "hold.txt")).read().split()) if os.path.exists(os.path.join(ROOT, "tools", "hold.txt")) else set()
 checks = []
 for pid in ids:
+    if pid in hold:
+        continue
     p = os.path.join(ROOT, "checks", pid + ".manifest.json")
     if os.path.exists(p) and os.path.exists(os.path.join(ROOT, "checks", pid + ".json")):
         c = json.load(open(p))
@@ -27,3 +30,20 @@ if os.path.exists(hooks):
     m["hooks"]["source_commits"] = [l.split()[0] for l in open(hooks) if l.strip() and not l.startswith("#")]
 json.dump(m, open(os.path.join(ROOT, "MANIFEST.json"), "w"), indent=1)
 print("claimed:", claimed)
+
+# ---- DESIGN.md appendix B from checks/Cnn.design.md
+import re
+dp = os.path.join(ROOT, "DESIGN.md")
+d = open(dp).read()
+notes = []
+for pid in ids:
+    f = os.path.join(ROOT, "checks", pid + ".design.md")
+    if os.path.exists(f):
+        notes.append(open(f).read().rstrip() + "\n")
+d = re.sub(r"(<!-- PROPNOTES-BEGIN -->).*?(<!-- PROPNOTES-END -->)", lambda m: m.group(1) + "\n" + "\n".join(notes) + m.group(2), d, flags=re.S)
+for marker, fname in (("FINDINGS", "tools/findings.md"), ("SEEDED", "tools/seeded.md")):
+    f = os.path.join(ROOT, fname)
+    if os.path.exists(f):
+        body = open(f).read().rstrip() + "\n"
+        d = re.sub(r"(<!-- %s-BEGIN -->).*?(<!-- %s-END -->)" % (marker, marker), lambda m: m.group(1) + "\n" + body + m.group(2), d, flags=re.S)
+open(dp, "w").write(d)
